@@ -32,6 +32,10 @@ type layout struct {
 	blankBetween    bool // an extra blank line between records
 	comment         bool // a comment / unrelated line between records
 	extraField      bool // an unrelated field inside each record
+	// go.mod only: 1 = the first record is replaced (versioned replace directive), 2 = that
+	// directive followed by a versioned one whose module is not required (no effect), 3 = the
+	// unused directive first
+	replace int
 }
 
 func (l layout) nl() string {
@@ -199,6 +203,16 @@ var formats = map[string]format{
 					}
 				}
 				s += ")"
+				used := "replace " + rs[0].name + " " + rs[0].version + " => example.com/fork/x v9.9.9"
+				unused := "replace example.com/not/required v1.0.0 => example.com/other/y v7.7.7"
+				switch l.replace {
+				case 1:
+					s += nl + nl + used
+				case 2:
+					s += nl + nl + used + nl + unused
+				case 3:
+					s += nl + nl + unused + nl + used
+				}
 				if l.trailingNewline {
 					s += nl
 				}
@@ -232,6 +246,9 @@ func VerifComplete() {
 	}
 	if l.crlf {
 		verifrt.Tag("crlf")
+	}
+	if verifrt.ParamStr("format") == "gomod" && n > 0 {
+		l.replace = verifrt.Choice("replace-directives", 4)
 	}
 	var rs []record
 	notInstalled := -1
@@ -274,8 +291,11 @@ func VerifComplete() {
 	}
 	verifrt.ObserveInt("packages", len(inv.Packages))
 	verifrt.Assert(len(inv.Packages) == want+f.extra, "exactly the listed (installed) packages are reported: none dropped, duplicated or invented")
-	for _, r := range rs {
+	for i, r := range rs {
 		en, ev := f.expect(r)
+		if i == 0 && l.replace > 0 {
+			en, ev = "example.com/fork/x", "9.9.9" // what the replace directive says
+		}
 		count := 0
 		for _, p := range inv.Packages {
 			count += verifrt.B2I(verifrt.And(verifrt.StrEq(p.Name, en), verifrt.StrEq(p.Version, ev)))
